@@ -23,6 +23,9 @@ EXEMPT_FUNCS = {"ILLlib_strongbranch": "strong branching edits bounds temporaril
                 "QSexact_verify": "verdict function: installing the supplied basis in the problem is its contract (it evaluates that basis); "
                                   "the second evaluation re-loads the basis the first one already accepted",
                 "QSexact_solver": "the only writes before its failure exits are the debug dump of the problem (DEBUG >= __QS_SB_VERB)"}
+# callees that can fail after having applied part of their batch (the R-ATOMIC known findings): an invalidation behind their failure is
+# a consequence of that finding, not a second violation
+HALF_APPLIED = ("ILLlib_addrows", "ILLlib_addcols")
 LOOKUPS = ("symboltab_lookup", "symboltab_getindex", "ILLlib_colindex", "ILLlib_rowindex", "symboltab_contains", "ILLutil_index")
 
 
@@ -165,7 +168,10 @@ class AtomicAnalysis:
         rej = st[4]
         key = (b["id"], i)
         k = e[0]
-        if key in self.mut and rej:
+        if key in self.mut and rej and any(n in rej for n in HALF_APPLIED) and ("free_cache" in self.mut[key][1] or "cached solution" in self.mut[key][1]
+                                                                                or "status" in self.mut[key][1]):
+            pass        # the batch routine has already changed the problem (known findings): dropping the cache behind it is required (R-INVALPART)
+        elif key in self.mut and rej:
             self.cand.setdefault(("late", key), (e[2], "%s is written after the arguments were already rejected (%s), before the function returns the error" % (
                 self.mut[key][1], rej), b["id"], st, frozenset()))
         res = self._xfer(b, i, e, (rv, tmp, wr, inbr))
